@@ -6,6 +6,37 @@
 #include "drv.h"
 #include <unistd.h>
 #include <signal.h>
+#include <sys/mman.h>
+#include <fcntl.h>
+
+/* shared "current case" slot: lets the Python side attribute a crash inside a multi-case command */
+static unsigned char *cur_slot; static size_t cur_cap;
+NI void cur_init(void) {
+    static int done; if(done) return; done = 1;
+    const char *p = getenv("VERIF_CUR"); if(!p) return;
+    int fd = open(p, O_RDWR | O_CREAT, 0600); if(fd < 0) return;
+    cur_cap = 1 << 20; if(ftruncate(fd, cur_cap)) {}
+    cur_slot = mmap(0, cur_cap, PROT_READ | PROT_WRITE, MAP_SHARED, fd, 0);
+    if(cur_slot == MAP_FAILED) cur_slot = 0;
+    close(fd);
+}
+NI void cur_set(long idx, const unsigned char *b, size_t n) {
+    if(!cur_slot) return;
+    if(n + 24 > cur_cap) n = cur_cap - 24;
+    memcpy(cur_slot, &idx, 8); uint64_t nn = n; memcpy(cur_slot + 8, &nn, 8); memcpy(cur_slot + 16, b, n);
+}
+
+/* sub-case labels; a label listed in the skip set (last argument "skip=a;b;c" of a command) is not executed */
+static const char *skip_list;
+NI void cur_skip_set(const char *s) { skip_list = s; }
+NI int cur_label(const char *s) {
+    if(skip_list) {
+        size_t L = strlen(s); const char *p = skip_list;
+        while(p && *p) { const char *e = strchr(p, ';'); size_t l = e ? (size_t)(e - p) : strlen(p); if(l == L && !memcmp(p, s, L)) return 1; p = e ? e + 1 : 0; }
+    }
+    cur_set(-1, (const unsigned char *)s, strlen(s));
+    return 0;
+}
 
 NI asn_TYPE_descriptor_t *find_type(const char *name) {
     for(int i = 0; verif_types[i].name; i++) if(!strcmp(verif_types[i].name, name)) return verif_types[i].td;
@@ -212,6 +243,8 @@ int main(int ac, char **av) {
         char *a[16]; int na = 0;
         for(char *p = strtok(line, " "); p && na < 16; p = strtok(0, " ")) a[na++] = p;
         alarm(wd);
+        cur_skip_set(0);
+        if(na > 1 && !strncmp(a[na - 1], "skip=", 5)) { cur_skip_set(a[na - 1] + 5); na--; }
         if(!strcmp(a[0], "rt")) cmd_rt(a, na);
         else if(!strcmp(a[0], "dec")) cmd_dec(a, na);
         else if(!strcmp(a[0], "enc")) cmd_enc(a, na);
